@@ -28,6 +28,7 @@ EXPLANATION = (
     'different term.')
 
 FACADE = {'facade': {'myokit': True}, 'diffcheck': False}
+_GSTATE = [0]
 TIMES = [0.5, 2.0]
 
 
@@ -193,6 +194,53 @@ class Obj(object):
             return tuple(res['Value']) + tuple(res['Time'])
         self.ops = dict(v=lambda x: draw('ID a'), s=lambda x: draw('ID b'),
                         p=lambda x: draw(None))
+
+    def _build_prior_pm(self, tag):
+        """PriorPredictiveModel: seeded sampling with the seeds 0 ('v'), 5
+        ('s') and a NumPy integer ('p'); the process-wide generator is in a
+        different state at every call (in the float replay: wherever the
+        earlier draws left it)"""
+        import math
+        import pints
+        from chisym.sym import Sym
+        B = self.B
+        um = SymMechModel(B, n_params=2, n_outputs=1)
+        pm = chi.PredictiveModel(um, chi.GaussianErrorModel())
+
+        class Prior(pints.LogPrior):
+            def n_parameters(self):
+                return 3
+
+            def __call__(self, x):
+                return 0.0
+
+            def sample(self, n=1):
+                import chi._log_pdfs as lp
+                z = lp.np.random.normal(size=(n, 3))
+                out = np.empty((n, 3), dtype=object if B.symbolic else float)
+                for i in range(n):
+                    for j in range(3):
+                        v = z[i][j]
+                        if j == 2:
+                            v = Sym.lift(v).exp() if B.symbolic else \
+                                math.exp(v)
+                        out[i, j] = v
+                return out
+        ppm = chi.PriorPredictiveModel(pm, Prior())
+        self.user = dict(mech=um, em=None)
+        self.obj = ppm
+        self.n = 1
+        times = self._watch(np.array([2.5, 1.0]))
+
+        def draw(seed):
+            rng = B.new_rng()
+            if rng is not None:
+                _GSTATE[0] += 1
+                rng.set_global('state-%d' % _GSTATE[0])
+            res = ppm.sample(times, n_samples=2, seed=seed)
+            return tuple(res['Value']) + tuple(res['Time'])
+        self.ops = dict(v=lambda x: draw(0), s=lambda x: draw(5),
+                        p=lambda x: draw(np.int64(7)))
 
     def _build_ll_red_mm(self, tag, shared=None):
         """likelihood whose user-supplied mechanistic model is a
@@ -404,11 +452,11 @@ def case_seq(B, cfg):
         s_ = seen.get((oi, 's', which))
         p_ = seen.get((oi, 'p', which))
         if v is not None and s_ is not None and op in ('v', 's') and \
-                kind not in ('pm', 'ppm'):
+                kind not in ('pm', 'ppm', 'prior_pm'):
             B.eq('step %d: S1 score = value at the same point (object %d)'
                  % (step, oi), s_[0], v[0])
         if v is not None and p_ is not None and op in ('v', 'p') and \
-                kind not in ('red_pop', 'ppm'):
+                kind not in ('red_pop', 'ppm', 'prior_pm'):
             tot = p_[0]
             for t_ in p_[1:]:
                 tot = tot + t_
@@ -506,7 +554,7 @@ def case_shared_models(B, cfg):
 
 
 KINDS = ['ll_pk', 'll_pk_fixed', 'post_pk', 'll_sym', 'hier', 'filterpost',
-         'red_em', 'red_pop', 'filter', 'll_red_em', 'pm', 'ppm']
+         'red_em', 'red_pop', 'filter', 'll_red_em', 'pm', 'ppm', 'prior_pm']
 
 
 def jobs(tier):
@@ -525,7 +573,7 @@ def jobs(tier):
                 out.append(('seq', 'case_seq', dict(
                     kind=kind, seq=[list(s) for s in seq]), facade))
         if kind in ('ll_pk', 'll_sym', 'red_em', 'll_pk_fixed', 'll_red_em',
-                    'pm', 'ppm'):
+                    'pm', 'ppm', 'prior_pm'):
             sib = list(itertools.product(two_ops, repeat=2))
             sib = [s for s in sib if s[0][0] != s[1][0]]
             if not q:
